@@ -26,6 +26,10 @@ func c17Sub(ctx *vkit.Ctx, cs *vkit.Case, name string, o c17Opts, fn func(g *c17
 				msg = "[" + name + "] " + a.msg
 				return
 			}
+			if q, ok := r.(c17Quiet); ok { // harness-side limit: no verdict for this sub-scenario
+				ctx.Count("probe.abandoned."+q.why, 1)
+				return
+			}
 			panic(r)
 		}
 	}()
